@@ -25,7 +25,12 @@ var properties = []Property{
 		NotDecided: "completeness of acceptance (that every sentence of the grammar is accepted) beyond the operator table; the language equation itself",
 		LevelText:  "Necessary conditions for 'rejects everything else' and 'no token silently skipped', checked over every path of the parser code; each violated obligation names the construct that makes some malformed token sequence pass or be reinterpreted.",
 		LevelNote:  "Trusted: go/types+go/ssa. The typestate treats any type test of the current token as 'seen'. Acceptance completeness is only covered through GRAM.table/chain.",
-	}, {ID: "C03"}, {ID: "C04"}, {ID: "C05"}, 
+	}, 
+	{ID: "C03", Title: "Untrusted input never crashes the library: a result or an error, always",
+		Rules:     []string{"TAG.access", "TAG.exprtoken", "PANIC.assert", "PANIC.div", "PANIC.shift", "CONV.tag", "CONV.identity"},
+		Technique: "panic-site inventory with dominating-guard / typestate discharge over go/ssa",
+	},
+	 {ID: "C04"}, {ID: "C05"}, 
 	{ID: "C06", Title: "Variant operators implement the arithmetic of the first operand's type",
 		Rules:     []string{"OPS.cell", "OPS.null", "OPS.convert", "OPS.override", "OPS.in", "PANIC.div", "PANIC.shift", "GRAM.emptycase", "CONV.cell", "CONV.tag"},
 		Technique: "normalised SSA expression trees per (operator × first-operand type) cell compared with the operator matrix of the statement; boolean cells and the Null policy folded into truth tables; dominating-guard check for division and shifts",
